@@ -137,8 +137,18 @@ def run(tier, seed):
     ns = 6 if tier == "quick" else 48
     reqs, meta = [], []
     for c in ok:
-        for s in range(ns):
-            reqs.append(f"gen {c['key']} {(seed * 1000003 + s * 7919 + 1) % (1 << 62)} {4 if s % 3 else 9}")
+        # directed part: twice the largest number of values any one condition chain compares a variable with (+ "none of them"),
+        # so that every if / else-if / else arm is taken; random part: ns further samples
+        toks = c["tokens"]
+        ncond = 0
+        for i, t in enumerate(toks):
+            if t in ("eq", "and") and i + 1 < len(toks) and toks[i + 1].isdigit():
+                ncond += int(toks[i + 1])
+            elif t == "ne":
+                ncond += 1
+        directed = min(2 * (ncond + 2), 64) if ncond else 0
+        for s in range(directed + ns):
+            reqs.append(f"gen {c['key']} {(seed * 1000003 + s * 7919 + 1) % (1 << 62)} {4 if s % 3 else 9} {s if s < directed else 1000000}")
             meta.append(c)
     gen = d.ask_many(reqs)
     d.close()
@@ -179,7 +189,7 @@ def run(tier, seed):
         "containers_total": len(conts), "containers_exercised": covered,
         "containers_outside_model": {"compressed (translator)": len(uns), **{f"built-in {k}": v for k, v in uns_kinds.items()}},
         "evaluations": len(hreq), "distinct_nontrivial": len(distinct), "frames_ok": n_ok,
-        "rule": f"{ns} structure-directed canonical encodings per version-expanded message (steering variables take every compared value / flag subsets; arrays 0..4 or 0..9 elements), both directions for msg; distinct = distinct (container, direction, frame)",
+        "rule": f"per version-expanded message: directed samples in which every steering variable cycles through every value it is compared with (and one it is not) / every single flag mask, none, all — so every if / else-if / else arm is taken — plus {ns} random samples (arrays 0..4 or 0..9 elements); both directions for msg; distinct = distinct (container, direction, frame)",
         "samples": [{"request": hreq[i][:200], "implementation": ho[i][:200]} for i in (0, len(hreq) // 2, len(hreq) - 1)],
     }
     rep.assumptions = ["messages containing compressed members/bodies or the built-ins listed under containers_outside_model are not yet in the generic semantics and are listed, not checked"]
